@@ -3,6 +3,7 @@ import InfluxQL.Model.PrintStmt
 import InfluxQL.Lemmas.Digits
 import InfluxQL.Lemmas.ParserTok
 import InfluxQL.Lemmas.RegexRoundTrip
+import InfluxQL.Lemmas.NumberRoundTrip
 import InfluxQL.Props.C01
 import InfluxQL.Props.C08
 /-
@@ -61,6 +62,23 @@ of `parseUnaryExpr` maps back to `MinInt64` (its `lit.Val == uint64(math.MaxInt6
 theorem minInt64_digits_parse (pos : Pos) (s : PState) :
     (parseIntegerLit (natDigits minInt64.natAbs) pos).run s = .ok (.unsigned 9223372036854775808, s) :=
   unsigned_print_parse 9223372036854775808 (by decide) (by decide) pos s
+
+/-! ## numbers -/
+
+/-- `NumberLiteral.String()` of a non-negative finite value (`Dec.print`: integer part, point,
+fraction digits without trailing zeros, `.0` for a whole number) is read back by the NUMBER case
+of `parseUnaryExpr` as a number literal of the same value: `mant' / 10^scale' = mant / 10^scale`.
+(The sign of a negative literal is a separate `-` token. In the model a number literal *is* its
+exact decimal; that this coincides with `float64` formatting is the trusted-base assumption for
+literals of at most 15 significant digits.) -/
+theorem number_print_parse (d : Dec) (hneg : d.neg = false)
+    (hfin : d.mant < (2 ^ 1024 - 2 ^ 970) * 10 ^ d.scale) (pos : Pos) (s : PState) :
+    ∃ d' : Dec, (parseNumberLit d.print pos).run s = .ok (.number d', s) ∧ d'.neg = false ∧
+      d'.mant * 10 ^ d.scale = d.mant * 10 ^ d'.scale :=
+  ⟨_, parseNumberLit_print d hneg hfin pos s, rfl, d.fracDigits_value⟩
+
+example : (⟨false, 1500, 3⟩ : Dec).print = "1.5".toList := by decide
+example : (⟨false, 3, 0⟩ : Dec).print = "3.0".toList := by decide
 
 /-! ## durations -/
 
